@@ -19,7 +19,7 @@ func TestMain(m *testing.M) {
 	vkit.Main(m)
 }
 
-var collIn = vkit.NewCollector("C14", "TestAckedInProcess", "1-3 cycles of 1-10 Append/SaveOffset calls (saves also rewind to earlier offsets) on one SQLite file opened through the fault driver, each call optionally with a fault placed inside it at the driver level (statement fails before running; statement runs and its reply is lost; the caller's context is cancelled right after the statement has run; a transaction commit fails; context already cancelled), a clean Close and reopen after every cycle. Oracle: the reopened log is the attempted appends in order with every acknowledged one present at its acknowledged offset (an append that reported an error may or may not be there), offsets increase and are never reused, LoadOffset returns the last acknowledged (or possibly written) value. Non-trivial = a fault inside an operation after an earlier append, with at least two cycles.")
+var collIn = vkit.NewCollector("C14", "TestAckedInProcess", "1-3 cycles of 1-10 Append/SaveOffset calls (saves also rewind to earlier offsets or name positions beyond the head of this database, as a subscription store for a log kept elsewhere sees them) on one SQLite file opened through the fault driver, each call optionally with a fault placed inside it at the driver level (statement fails before running; statement runs and its reply is lost; the caller's context is cancelled right after the statement has run; a transaction commit fails; context already cancelled), a clean Close and reopen after every cycle. Oracle: the reopened log is the attempted appends in order with every acknowledged one present at its acknowledged offset (an append that reported an error may or may not be there), offsets increase and are never reused, LoadOffset returns the last acknowledged (or possibly written) value. Non-trivial = a fault inside an operation after an earlier append, with at least two cycles.")
 
 func TestAckedInProcess(t *testing.T) { vkit.Check(t, collIn, GenInProc, RunInProc) }
 
